@@ -317,6 +317,15 @@ func (h *vC27History) choose(invalidBias int) (op string, signer, payee crypto.K
 	}
 
 	// hostile choices: any operation with keys of any provenance
+	// the pledge that the latest record resolved (accepted or cancelled) is resolved a second time; run() stamps it
+	// between the pledge and its resolution
+	if n := len(h.model.hist); n >= 2 && rng.Intn(6) == 0 {
+		last, prev := h.model.hist[n-1], h.model.hist[n-2]
+		if prev.Signer == last.Signer && prev.State == common.NodeStatePledging &&
+			(last.State == common.NodeStateAccepted || last.State == common.NodeStateCancelled) {
+			return []string{"accept", "cancel"}[rng.Intn(2)], last.Signer, last.Payee, "resolved-pledge-resolved-again"
+		}
+	}
 	op = []string{"pledge", "accept", "cancel", "remove"}[rng.Intn(4)]
 	anyOf := func(states ...string) (vC27Entry, bool) {
 		if len(states) == 0 {
@@ -559,7 +568,7 @@ func (h *vC27History) run(nOps, invalidBias int) (applied map[string]int, err er
 		// an operation the lifecycle forbids stays forbidden when it is stamped a little earlier than the latest
 		// record (inside the 12 h the store looks ahead): between the two latest records of the history
 		backdatedPledge := allowed && op == "pledge" && k > nOps*2/3 && h.rng.Intn(6) == 0
-		if n := len(h.model.hist); (!allowed && h.rng.Intn(3) == 0 || backdatedPledge) && n >= 2 {
+		if n := len(h.model.hist); (!allowed && (intent == "resolved-pledge-resolved-again" || h.rng.Intn(3) == 0) || backdatedPledge) && n >= 2 {
 			last, prev := h.model.hist[n-1].Ts, h.model.hist[n-2].Ts
 			const lookahead = uint64(12 * 3600 * 1e9)
 			if last > prev+1 {
